@@ -32,12 +32,16 @@ LEVEL_TEXT = (
     "same per-motif-id per-topology edge counts, and the draw set mirrors the edge set (C11_rewire_inv_partial, "
     "C11_swap_preserves_inv_partial). PARTIAL: the shape clause (edges sharing a motif id keep the motif's shape) is "
     "REFUTED for the code as it is (C11_shape_refuted, open known finding: new corner edges carry the id of the motif "
-    "they left) and PROVED in general for the repaired id rule (C11_shape_fixed). The verified checkers (sound for "
-    "the specification) judge every intermediate graph of the real rewire(); the model is compared with the real "
+    "they left) and PROVED in general for the repaired id rule (C11_shape_fixed). The verified checkers are proved "
+    "sound AND complete: check_hard = true <-> Hard, check_shape = true <-> Shape, wfb = true <-> WF "
+    "(C11_check_hard_iff, C11_check_shape_iff, C11_check_inv_iff, C11_wfb_iff), so a 'false' on a real graph IS a "
+    "violated clause; they are proved to accept every state of every model run (hard: both id rules; hard + shape: "
+    "repaired rule) and check_shape is proved to reject the refuting run. They judge every intermediate graph of "
+    "the real rewire(); the model is compared with the real "
     "code after every accepted swap under scripted randomness, incl. second calls on the same object.")
 LEVEL_NOTE = ("Trusted: Coq kernel; extraction + OCaml driver + Python harness for the correspondence; networkx primitives "
               "as modelled. Modelled, not verified: adjacency order (oracle answer, validated as a permutation), G.copy(). "
-              "Checker completeness not proved (soundness is). Open finding C11b reported as KNOWN-FINDING; the check "
+              "Checkers are decision procedures for Hard / Shape (equivalences proved). Open finding C11b reported as KNOWN-FINDING; the check "
               "follows the implementation's id rule (crossed / repaired) and enforces the shape clause for the repaired one.")
 
 
